@@ -662,6 +662,34 @@ fn check_config(ctx: &mut Ctx, c: &ConfigCase) -> Res {
     if let Some(hc) = s.hc_port {
         const WANT: &str = "HTTP/1.1 200 OK\nContent-Length: 0\nConnection: close\n\n";
         let probe = UdpSocket::bind("127.0.0.1:0").unwrap();
+        // impolite clients first: connections that are reset right after the handshake (SO_LINGER 0 => RST),
+        // and ones closed without reading. The server must take them in its stride.
+        for j in 0..2 * n {
+            if let Ok(st) = TcpStream::connect_timeout(&format!("127.0.0.1:{}", hc).parse().unwrap(), Duration::from_secs(2)) {
+                if j % 2 == 0 {
+                    unsafe {
+                        use std::os::unix::io::AsRawFd;
+                        let lg = libc::linger { l_onoff: 1, l_linger: 0 };
+                        libc::setsockopt(st.as_raw_fd(), libc::SOL_SOCKET, libc::SO_LINGER, &lg as *const _ as *const libc::c_void, std::mem::size_of::<libc::linger>() as u32);
+                    }
+                }
+                drop(st);
+            }
+        }
+        std::thread::sleep(Duration::from_millis(50));
+        // a burst: 2*N+1 connections opened at the same time, all of them must be answered
+        let burst: Vec<TcpStream> = (0..2 * n + 1).filter_map(|_| TcpStream::connect_timeout(&format!("127.0.0.1:{}", hc).parse().unwrap(), Duration::from_secs(2)).ok()).collect();
+        for (j, mut st) in burst.into_iter().enumerate() {
+            st.set_read_timeout(Some(Duration::from_secs(3))).unwrap();
+            let mut got = Vec::new();
+            let _ = st.read_to_end(&mut got);
+            if got != WANT.as_bytes() {
+                return ctx.fail(
+                    if got.is_empty() { "health-no-response|burst" } else { "health-response-differs" },
+                    format!("{}: connection #{} of a burst of {} simultaneous health connections read {:?} within 3 s", tag, j, 2 * n + 1, String::from_utf8_lossy(&got)),
+                );
+            }
+        }
         for j in 0..3 * n {
             let mut st = match TcpStream::connect_timeout(&format!("127.0.0.1:{}", hc).parse().unwrap(), Duration::from_secs(2)) {
                 Ok(st) => st,
@@ -672,7 +700,7 @@ fn check_config(ctx: &mut Ctx, c: &ConfigCase) -> Res {
             let mut got = Vec::new();
             let r = st.read_to_end(&mut got);
             if r.is_err() && got.is_empty() {
-                return ctx.fail("health-no-response", format!("{}: health connection #{} got no response within 3 s", tag, j));
+                return ctx.fail("health-no-response|after-aborted-connections", format!("{}: health connection #{} (sequential, after {} connections that were reset or closed unread and a burst) got no response within 3 s", tag, j, 2 * n));
             }
             if got != WANT.as_bytes() {
                 return ctx.fail("health-response-differs", format!("{}: health connection #{} read {:?}", tag, j, String::from_utf8_lossy(&got)));
@@ -827,6 +855,9 @@ struct ClientOutcome {
     inconclusive: Option<String>,
     keys: HashSet<Vec<u8>>,
     done: u64,
+    /// classic replies whose microsecond midpoint lies before the request was sent / after the reply was received,
+    /// beyond a 2 ms tolerance (harness and server read the same CLOCK_REALTIME): (how far in ns, description)
+    clock_outliers: Vec<(u128, String)>,
 }
 
 fn run_round(ctx: &mut Ctx, s: &mut ServerProc, r: &Round, round_no: u64) -> Res {
@@ -834,12 +865,14 @@ fn run_round(ctx: &mut Ctx, s: &mut ServerProc, r: &Round, round_no: u64) -> Res
     let pk = s.pk.clone();
     let port = s.port;
     let n_clients = r.clients.max(1) as usize;
+    let round_mono = Instant::now();
+    let round_real = std::time::SystemTime::now();
     let mut handles = vec![];
     for c in 0..n_clients {
         let r = r.clone();
         let pk = pk.clone();
         handles.push(std::thread::spawn(move || -> ClientOutcome {
-            let mut out = ClientOutcome { violation: None, inconclusive: None, keys: HashSet::new(), done: 0 };
+            let mut out = ClientOutcome { violation: None, inconclusive: None, keys: HashSet::new(), done: 0, clock_outliers: vec![] };
             let sock = UdpSocket::bind("127.0.0.1:0").unwrap();
             let my_port = sock.local_addr().unwrap().port();
             let mut buf = [0u8; 4096];
@@ -855,6 +888,7 @@ fn run_round(ctx: &mut Ctx, s: &mut ServerProc, r: &Round, round_no: u64) -> Res
                 let req = fresh_request(proto, b"c18", id ^ (round_no << 48));
                 sock.set_nonblocking(false).unwrap();
                 sock.set_read_timeout(Some(Duration::from_secs(10))).unwrap();
+                let t_send = std::time::SystemTime::now().duration_since(std::time::UNIX_EPOCH).unwrap().as_nanos();
                 if sock.send_to(&req, addr).is_err() {
                     out.inconclusive = Some("send failed".into());
                     return out;
@@ -862,8 +896,18 @@ fn run_round(ctx: &mut Ctx, s: &mut ServerProc, r: &Round, round_no: u64) -> Res
                 match sock.recv_from(&mut buf) {
                     Ok((len, _)) => match verify_strict(proto, &req, &buf[..len], &pk) {
                         Ok(info) => {
+                            let t_recv = std::time::SystemTime::now().duration_since(std::time::UNIX_EPOCH).unwrap().as_nanos();
                             out.keys.insert(info.pubk.clone());
                             out.done += 1;
+                            // the batch was signed between our send and our receive
+                            let unit: u128 = if proto == Proto::Classic { 1_000 } else { 1_000_000_000 };
+                            let lo = info.midp as u128 * unit; // reading lies in [lo, lo + unit)
+                            const TOL: u128 = 2_000_000;
+                            if lo + unit + TOL <= t_send {
+                                out.clock_outliers.push((t_send - lo - unit, format!("{} MIDP {} is {} us BEFORE the request was even sent", proto.name(), info.midp, (t_send - lo - unit) / 1000)));
+                            } else if lo > t_recv + TOL {
+                                out.clock_outliers.push((lo - t_recv, format!("{} MIDP {} is {} us AFTER the reply was received", proto.name(), info.midp, (lo - t_recv) / 1000)));
+                            }
                         }
                         Err(e) => {
                             out.violation = Some(viol(format!("reply-invalid-under-load|{}", e), format!("client {} request {} ({}): reply fails strict verification for the outstanding request: {}", c, k, proto.name(), e)));
@@ -902,10 +946,12 @@ fn run_round(ctx: &mut Ctx, s: &mut ServerProc, r: &Round, round_no: u64) -> Res
     let mut keys = HashSet::new();
     let mut first_v = None;
     let mut done = 0;
+    let mut outliers: Vec<(u128, String)> = vec![];
     for h in handles {
         let o = h.join().unwrap();
         done += o.done;
         keys.extend(o.keys);
+        outliers.extend(o.clock_outliers);
         if let Some(m) = o.inconclusive {
             ctx.inconclusive(format!("C18 round: {}", m));
         }
@@ -916,6 +962,21 @@ fn run_round(ctx: &mut Ctx, s: &mut ServerProc, r: &Round, round_no: u64) -> Res
     ctx.evals(done);
     if let Some(v) = first_v {
         return ctx.fail(v.sig, format!("workers={} clients={} mix={}: {}", r.workers, n_clients, r.mix, v.what));
+    }
+    // midpoints outside [send, receive]: only meaningful if the realtime clock was not stepped during the round
+    // (compared against the monotonic clock), and only when it happens repeatedly
+    let mono = round_mono.elapsed().as_nanos() as i128;
+    let real = std::time::SystemTime::now().duration_since(round_real).map(|d| d.as_nanos() as i128).unwrap_or(-1);
+    let stepped = real < 0 || (real - mono).abs() > 1_000_000;
+    if outliers.len() >= 3 && !stepped {
+        outliers.sort_by(|a, b| b.0.cmp(&a.0));
+        return ctx.fail(
+            "midpoint-outside-send-receive-window-under-load",
+            format!("workers={} clients={}: {} of {} replies state a midpoint outside the interval between sending the request and receiving the reply (same host clock, 2 ms tolerance, clock not stepped); worst: {}", r.workers, n_clients, outliers.len(), done, outliers[0].1),
+        );
+    }
+    if stepped && !outliers.is_empty() {
+        ctx.note("realtime clock stepped during a C18 round; midpoint window not judged".to_string());
     }
     let n = r.workers as usize;
     let names = s.thread_names();
